@@ -386,6 +386,10 @@ class Inter:
         if tag(f) != "field":
             return f
         base = kids(f)[0]
+        if tag(base) == "mutby":
+            g = self._field_untouched(f)
+            if g is not None:
+                return g
         b = base
         while tag(b) in ("unwrap", "ok"):
             b = kids(b)[0]
@@ -415,6 +419,41 @@ class Inter:
             if tag(v) == "field" and kids(v) and kids(v)[0] == sym.unwrap(sym.subst(oks[0].ret, m)):
                 return f
             return v
+        finally:
+            self._ft_depth -= 1
+
+    def _field_untouched(self, f):
+        """field(mutby#i(call g(..), old), name) where no success path of g writes that field of its i-th
+        (`&mut`) argument's pointee: the field still has its old value (frame rule)"""
+        base = kids(f)[0]
+        res, old = kids(base)
+        i = payload(base)[0]
+        fn = self.call_target(res)
+        if fn is None or i >= fn.arg_count or self._ft_depth > 3:
+            return None
+        name = payload(f)[0]
+        self._ft_depth += 1
+        try:
+            try:
+                oks = self.ok_paths(fn)
+            except P.TooManyPaths:
+                return None
+            if not oks:
+                return None
+            pk = sym.param(fn.key, i, fn.param_name(i))
+            for p in oks:
+                if p.exit != "return":
+                    return None
+                if pk in p.ptr_out and sym.field(p.ptr_out[pk], name) != sym.field(pk, name):
+                    return None
+                # the pointer handed on to another call that may write through it
+                for e in p.events:
+                    if pk in e.raw or pk in e.args:
+                        if e.target is None and e.name not in P.TRANSPARENT and not e.name.startswith(("std::vec::Vec::", "std::slice::", "core::slice::")):
+                            return None
+                        if e.target is not None:
+                            return None
+            return self.inline(sym.field(old, name), 3)
         finally:
             self._ft_depth -= 1
 
